@@ -11,6 +11,7 @@ in that set (no intervening write to the object), or the site is justified in
 rules/justified_sites.json by (function, operation, object path) -- never by line.
 """
 import json
+import re
 import os
 
 from . import facts as F
@@ -911,9 +912,14 @@ def load_justified():
         return json.load(f)["entries"]
 
 
+def _nolocalidx(t):
+    """canonical local names carry their declaration index (r_v3, r_lv1); an unrelated local added in front shifts it"""
+    return re.sub(r"\br_(l*)v\d+\b", r"r_\1v#", t or "")
+
+
 def justified(entries, fname, op, objtext):
     for e in entries:
-        if e["function"] == fname and e["op"] == op and (e.get("object") in (None, "*") or e["object"] == objtext):
+        if e["function"] == fname and e["op"] == op and (e.get("object") in (None, "*") or _nolocalidx(e["object"]) == _nolocalidx(objtext)):
             e["_used"] = True
             return e
     return None
